@@ -363,33 +363,37 @@ Record output := mkOut {
 
 Definition subset (a b : list Z) : bool := forallb (fun x => zmem x b) a.
 
+(* how a run ends: normally, or with an exception (classes as the harness reads them off stderr) *)
+Inductive errkind := ENotSorted | EInvalidContig | ETypeError | EOther.
+Inductive rresult := ROk (o : output) | RErr (e : errkind).
+
 Definition finish (chrlen : Z -> option Z) (seen : list Z) (total : pstats)
-           (rows : list (Z * dstats)) (bl : list (Z * (key * Z * Z * Z))) (gtf : list (Z * (Z * Z * Z))) : option output :=
+           (rows : list (Z * dstats)) (bl : list (Z * (key * Z * Z * Z))) (gtf : list (Z * (Z * Z * Z))) : rresult :=
   if Nat.ltb 1 (length (znodup seen)) then
     match get_detailed_stats chrlen total with
-    | Some d => if print_ok d then Some (mkOut rows (Some d) bl gtf) else None
-    | None => None
+    | Some d => if print_ok d then ROk (mkOut rows (Some d) bl gtf) else RErr EOther
+    | None => RErr EOther
     end
-  else Some (mkOut rows None bl gtf).
+  else ROk (mkOut rows None bl gtf).
 
 (* todo: the variant tables still to come: (chromosome id, Some records) or (id, None) = fetch of a
    contig the header does not have (VcfInvalidChromosome) *)
 Fixpoint run_loop (R : rules) (only_snvs : bool) (chrlen : Z -> option Z) (given : list Z)
          (todo : list (Z * option (list vrec))) (seen : list Z) (total : pstats)
-         (rows : list (Z * dstats)) (bl : list (Z * (key * Z * Z * Z))) (gtf : list (Z * (Z * Z * Z))) : option output :=
+         (rows : list (Z * dstats)) (bl : list (Z * (key * Z * Z * Z))) (gtf : list (Z * (Z * Z * Z))) : rresult :=
   match todo with
   | [] => finish chrlen seen total rows bl gtf
-  | (cid, None) :: _ => None
+  | (cid, None) :: _ => RErr EInvalidContig
   | (cid, Some recs) :: rest =>
       match read_rows only_snvs None recs with
-      | None => None
+      | None => RErr ENotSorted
       | Some trows =>
           let seen' := cid :: seen in
           if negb (match given with [] => true | _ => false end) && negb (zmem cid given) then
             run_loop R only_snvs chrlen given rest seen' total rows bl gtf
           else
             match process_rows R chrlen cid trows with
-            | None => None
+            | None => RErr (if mixed_keys (g_blocks (get_phase_blocks R trows)) then ETypeError else EOther)
             | Some cr =>
                 let total' := ps_iadd total (cr_stats cr) in
                 let rows' := rows ++ [(cid, cr_row cr)] in
@@ -416,7 +420,7 @@ Fixpoint lookup_recs (groups : list (Z * list vrec)) (c : Z) : list vrec :=
 (* header: contigs of the VCF header with their lengths; groups: the records of the file grouped by
    chromosome in file order; given: --chromosome (unpacked); indexed: a .tbi/.csi index exists *)
 Definition run_stats (R : rules) (only_snvs indexed : bool) (header : list (Z * option Z))
-           (groups : list (Z * list vrec)) (given : list Z) : option output :=
+           (groups : list (Z * list vrec)) (given : list Z) : rresult :=
   let todo :=
       if indexed && negb (match given with [] => true | _ => false end) then
         map (fun c => (c, if zmem c (map fst header) then Some (lookup_recs groups c) else None)) given
@@ -449,9 +453,13 @@ Definition odstats_eqb (a b : option dstats) : bool :=
 Definition output_eqb (a b : output) : bool :=
   list_eqb row_eqb (o_rows a) (o_rows b) && odstats_eqb (o_all a) (o_all b) &&
   list_eqb cbl_eqb (o_blocklist a) (o_blocklist b) && list_eqb gtfline_eqb (o_gtf a) (o_gtf b).
-(* None = the run aborted with an exception *)
-Definition ooutput_eqb (a b : option output) : bool :=
-  match a, b with None, None => true | Some x, Some y => output_eqb x y | _, _ => false end.
+Definition errkind_eqb (a b : errkind) : bool :=
+  match a, b with
+  | ENotSorted, ENotSorted | EInvalidContig, EInvalidContig | ETypeError, ETypeError | EOther, EOther => true
+  | _, _ => false
+  end.
+Definition rresult_eqb (a b : rresult) : bool :=
+  match a, b with ROk x, ROk y => output_eqb x y | RErr x, RErr y => errkind_eqb x y | _, _ => false end.
 
 (* ========================================================================================== *)
 (* SPECIFICATION SIDE: independent counts over the record list of one chromosome              *)
@@ -622,9 +630,9 @@ Definition l1_run (only_snvs : bool) (groups : list (Z * list vrec)) (given : li
   forallb (fun l => zmem (fst l) (map fst (o_rows out))) (o_gtf out).
 
 (* shape of one correspondence case written by harness/props/C12.py:
-   ((only_snvs, indexed), header, groups, given, output of the implementation (None = aborted)) *)
+   ((only_snvs, indexed), header, groups, given, result of the implementation) *)
 Definition case_t : Type :=
-  ((bool * bool) * list (Z * option Z) * list (Z * list vrec) * list Z * option output)%type.
+  ((bool * bool) * list (Z * option Z) * list (Z * list vrec) * list Z * rresult)%type.
 
 (* ========================================================================================== *)
 (* Prop-level vocabulary of the theorems in props/C12.v                                       *)
